@@ -249,6 +249,8 @@ INT_RANGES = {
 
 
 def dcopy(v):
+    if type(v).__name__ == "PyMap":
+        return type(v)([(dcopy(k), dcopy(x)) for k, x in v.pairs])
     if isinstance(v, Adt):
         return Adt(v.path, v.variant, {k: dcopy(x) for k, x in v.fields.items()})
     if isinstance(v, PyVec):
@@ -642,6 +644,9 @@ class Machine(object):
             if isinstance(inner, PyVec) and isinstance(val, PyVec):
                 inner.items = val.items
                 return
+            if type(inner).__name__ == "PyMap" and type(val).__name__ == "PyMap":
+                inner.pairs = val.pairs
+                return
             raise Unsupported("assignment through non-&mut reference", e.get("sp", ""))
         if k == "field":
             base = self.eval_place(e["e"], env)
@@ -649,7 +654,12 @@ class Machine(object):
                 base.fields[e["name"]] = val
                 return
             if isinstance(base, tuple):
-                raise Unsupported("assignment to tuple field", e.get("sp", ""))
+                idx = e.get("idx")
+                if idx is None:
+                    idx = int(e["name"])
+                new = tuple(val if i == idx else x for i, x in enumerate(base))
+                self.place_set(e["e"], new, env)
+                return
             raise Unsupported("field assignment on %r" % (base,), e.get("sp", ""))
         if k == "index":
             base = self.eval_place(e["e"], env)
@@ -724,6 +734,11 @@ class Machine(object):
             return e["char"]
         if "bytes" in e:
             return PyVec(e["bytes"])
+        if "other" in e:
+            mo = re.match(r'Float\("([^"]+)"', e["other"])
+            if mo:
+                v = float(mo.group(1).replace("_", ""))
+                return -v if e.get("neg") else v
         raise Unsupported("literal %r" % (e,), e.get("sp", ""))
 
     def e_var(self, e, env):
@@ -784,6 +799,13 @@ class Machine(object):
         tys = self.facts.ty(e["ty"])
         if isinstance(v, Term):
             return Term("cast", v, tys)
+        if tys in ("f64", "f32") and isinstance(v, (int, float)) and not isinstance(v, bool):
+            return float(v)
+        if isinstance(v, float) and tys in INT_RANGES:
+            lo, hi = INT_RANGES[tys]
+            if v != v:
+                return 0
+            return max(lo, min(hi, int(v)))     # saturating float -> int cast
         if isinstance(v, bool):
             return int(v) if tys in INT_RANGES else v
         if isinstance(v, int) and tys in INT_RANGES:
@@ -890,6 +912,19 @@ class Machine(object):
                 return l or r
             if op == "BitXor":
                 return l != r
+        if isinstance(l, float) or isinstance(r, float):
+            # f64 arithmetic (IEEE semantics of Python floats; no overflow panics)
+            if op in ("Add", "AddWithOverflow"):
+                return l + r
+            if op == "Sub":
+                return l - r
+            if op == "Mul":
+                return l * r
+            if op == "Div":
+                if r == 0:
+                    return float("inf") if l > 0 else (float("-inf") if l < 0 else float("nan"))
+                return l / r
+            raise Unsupported("float operation %s" % op, where)
         if not isinstance(l, int) or not isinstance(r, int):
             raise Unsupported("binary %s on %r, %r" % (op, l, r), where)
         if op in ("Add", "AddWithOverflow"):
